@@ -295,7 +295,7 @@ func calcCursorOffset(text string, col int) int {
 	widthBorders := []int32{
 		126, 159, 687, 710, 711, 727, 733, 879, 1154, 1161,
 		4347, 4447, 7467, 7521, 8369, 8426, 9000, 9002, 11021, 12350,
-		12351, 12438, 12442, 19893, 19967, 55203, 63743, 64106, 65039, 65059,
+		12351, 12438, 12442, 19903, 19967, 55203, 63743, 64106, 65039, 65059,
 		65131, 65279, 65376, 65500, 65510, 120831, 262141, 1114109,
 	}
 
